@@ -799,24 +799,26 @@ theorem G_ping {c : List NodeCfg} {S : Ip → Mac → Prop} (hs : Spec c S) (fue
   · exact hG
   · split
     · exact hG
-    · simp only
-      have hfold := foldl_inv (fun (acc : St × Bool) => G c S acc.1)
-        (fun (acc : St × Bool) (_ : Nat) =>
-          if !acc.2 then acc else
-          match (resolveOut fuel acc.1 n target).2 with
-          | none => ((resolveOut fuel acc.1 n target).1, false)
-          | some _ => (sendIcmp fuel (resolveOut fuel acc.1 n target).1 n target (.echoReq st.nextId), true))
-        (by
-          intro a _ ha
-          split
-          · exact ha
-          · split
-            · exact ih.out _ _ _ ha
-            · exact ih.icmp _ _ _ _ (ih.out _ _ _ ha) trivial)
-        (List.range pings) ({ st with nextId := st.nextId + 1 }, true) (hG.nextId _)
-      split
-      · exact hfold
-      · exact hfold
+    · split
+      · exact hG
+      · simp only
+        have hfold := foldl_inv (fun (acc : St × Bool) => G c S acc.1)
+          (fun (acc : St × Bool) (_ : Nat) =>
+            if !acc.2 then acc else
+            match (resolveOut fuel acc.1 n target).2 with
+            | none => ((resolveOut fuel acc.1 n target).1, false)
+            | some _ => (sendIcmp fuel (resolveOut fuel acc.1 n target).1 n target (.echoReq st.nextId), true))
+          (by
+            intro a _ ha
+            split
+            · exact ha
+            · split
+              · exact ih.out _ _ _ ha
+              · exact ih.icmp _ _ _ _ (ih.out _ _ _ ha) trivial)
+          (List.range pings) ({ st with nextId := st.nextId + 1 }, true) (hG.nextId _)
+        split
+        · exact hfold
+        · exact hfold
 
 
 /-- with a good configuration, `SoundPair` is a soundness predicate the induction accepts. -/
